@@ -51,8 +51,17 @@ def gen_array(rng):
                     8: [0x7FF0000000000000, 0xFFF0000000000000, 0x7FF8000000000001, 0x8000000000000000, 0x7FF4000000000000]}[item]
         for _ in range(rng.randint(0, 2)):
             bits[rng.randrange(len(bits))] = rng.choice(specials)
+    rewrite = rng.choice([False, True, True, 'longer', 'twin', 'twin'])
+    if rewrite == 'twin' and np.dtype(dt).kind == 'f' and not bits:
+        rows = rng.choice([1, 2, 3])
+        bits = [rng.getrandbits(8 * item) for _ in range(rows * cols)]
+    if rewrite == 'twin' and np.dtype(dt).kind == 'f' and bits:
+        # the array written before is EQUAL AS NUMBERS to this one and differs in bits: the sign of its zeros (the history of a
+        # re-extraction whose only change is -0.0 for 0.0); some zeros are planted so that there is something to differ in
+        for _ in range(rng.randint(1, 3)):
+            bits[rng.randrange(len(bits))] = rng.choice([0, 1 << (8 * item - 1)])
     return {'op': 'array', 'dtype': dt, 'rows': rows, 'cols': cols, 'bits': bits,
-            'layout': rng.choice(['c', 'f', 'strided', 'bigendian']), 'storage': rng.choice(['file', 'tar', 'depth']), 'rewrite': rng.choice([False, True, True, 'longer']),
+            'layout': rng.choice(['c', 'f', 'strided', 'bigendian']), 'storage': rng.choice(['file', 'tar', 'depth']), 'rewrite': rewrite,
             'kind': rng.choice(KINDS), 'image': rng.choice(NAMES[:12])}
 
 
@@ -79,6 +88,19 @@ def cases(rng, tier):
             if a != b:
                 out.append({'op': 'mpath', 'type': 'sift', 'a': a, 'b': b})
     return out
+
+
+def previous_array(c, a, dt):
+    """ what stood at the path before (see `rewrite` in gen_array) """
+    if c['rewrite'] == 'twin':
+        prev = np.ascontiguousarray(a).astype(dt, copy=True)
+        if dt.kind == 'f' and prev.size:
+            u = prev.view(np.dtype('u%d' % dt.itemsize))
+            zero = (prev == 0)
+            u[zero] ^= np.array(1 << (8 * dt.itemsize - 1), dtype=u.dtype)
+        return prev
+    prev_shape = (a.shape[0] + 3, a.shape[1]) if c['rewrite'] == 'longer' else a.shape
+    return np.ones(prev_shape, dtype=dt)
 
 
 def make_array(c):
@@ -131,8 +153,7 @@ def run_real(c):
                         # history: another array of the SAME shape (same byte size, same second) was written to this path and
                         # read before; and the array a reader returned is modified in place before the next read
                         # ... or a LONGER array was there before (re-extraction with fewer keypoints): nothing of it may remain
-                        prev_shape = (a.shape[0] + 3, a.shape[1]) if c['rewrite'] == 'longer' else a.shape
-                        writer(p, np.ones(prev_shape, dtype=dt))
+                        writer(p, previous_array(c, a, dt))
                         old = reader(p, dt.type, c['cols'])
                         if old.size and old.flags.writeable:
                             old.flat[0] = 1
@@ -152,7 +173,7 @@ def run_real(c):
                         # array read back must be the one written last
                         with TarHandler(tp, 'a') as th:
                             writer(kf.get_features_fullpath(cls, 'T', base, c['image'], th),
-                                   np.zeros((c['rows'] + 2, c['cols']), dtype=dt))
+                                   previous_array(c, a, dt) if c['rewrite'] == 'twin' else np.zeros((c['rows'] + 2, c['cols']), dtype=dt))
                     with TarHandler(tp, 'a') as th:
                         writer(kf.get_features_fullpath(cls, 'T', base, c['image'], th), a)
                     with TarHandler(tp, 'r') as th:
@@ -175,8 +196,7 @@ def run_real(c):
                     p = kr.get_depth_map_fullpath(base, c['image'] + '.depth')
                     from kapture.io.binary import array_to_file, array_from_file
                     if c.get('rewrite'):
-                        prev_shape = (a.shape[0] + 3, a.shape[1]) if c['rewrite'] == 'longer' else a.shape
-                        array_to_file(p, np.ones(prev_shape, dtype=a.dtype))
+                        array_to_file(p, previous_array(c, a, dt).astype(a.dtype))
                         array_from_file(p, dt.type, c['cols'])
                     array_to_file(p, a)
                     raw = open(p, 'rb').read()
